@@ -6,19 +6,24 @@ MODULES = ['DsdVerif.Props.C12']
 GEN_FILES = ['Grammars']
 THEOREM_NAMES = ['kernelTokens_total', 'resolve_kernel_inverse', 'resolve_kernel_structure', 'complementary_rotate', 'kernel_all_rotations',
                  'compName_involutive']
-THEOREMS = []
+THEOREMS = ['Dsd.C12.' + t for t in THEOREM_NAMES]
 ASSUMPTIONS = [
     'resolve_kernel_loops and kernel_string are hand-modelled at token level (Model/Kernel.lean, Model/CplxObject.lean); the '
     'character level goes through the model of pyparsing over the regenerated PIL grammar (correspondence with the real parser)',
 ]
 MANIFEST = {
-    'text': 'Partial at this commit (token-level theorems as listed in the evidence). The round trip name = kernel_string -> read_pil_line '
-            '-> same sequence and structure -> same singleton object is decided on the real reader for every domain-level-complementary '
-            'complex over PIL-legal names up to a bounded size in every rotation (and random large ones); the model chain '
-            'kernelString -> parse (regenerated grammar) -> resolveKernel is compared with kernel_string -> parse_pil_string -> '
-            'resolve_kernel_loops on the same inputs.',
-    'note': 'Character-level fidelity rests on the correspondence with pyparsing; trusted base as in DESIGN.md section 3.',
-    'technique': 'Lean 4 induction over the nesting of kernel patterns (token level); correspondence check through the grammar model; reader oracle',
+    'text': 'Full at token level, correspondence-tied at character level. resolve_kernel_inverse: for every aligned, balanced, '
+            'domain-level-complementary description - any nesting depth, any number of strands, empty loops - the reader\'s translation '
+            'of the kernel token forest returns exactly (sequence, structure); resolve_kernel_structure (without complementarity the '
+            'structure is still exact and only closing names may differ); complementary_rotate and kernel_all_rotations (the round trip '
+            'holds in every rotation, for names whose complement operation is an involution: at most one trailing star - a '
+            'machine-checked counterexample with a double star is kept in the file); kernelTokens_total; compName_involutive. The '
+            'character level (kernel_string text -> grammar -> token forest) goes through the model of pyparsing over the regenerated '
+            'grammar (see C13 kernel_rt when listed there) and is compared with the real parser; the object-level clause (same singleton) '
+            'is decided on the real reader for every complementary complex up to a bounded size in every rotation.',
+    'note': 'Names with two trailing stars are outside the property (complement is not an involution on them); character-level fidelity '
+            'rests on the correspondence with pyparsing.',
+    'technique': 'Lean 4 joint invariant over the kernel stack machine and the bracket matcher; correspondence check through the grammar model; reader oracle',
 }
 
 NAMES = ['a', 'b', 'c1', 't_2', 'x-y', '12', 'B', 'e5', 'inf', 'i', 'M', '_']
